@@ -250,7 +250,8 @@ pub fn c13_exclude_patterns_relocated() {
     std::mem::forget(pats);
 }
 
-/// @harness id=c13_file_name_any9 props=C13 tier=thorough unwind=40 mem=12 cap=1800
+/// @harness id=c13_file_name_any9 props=ATTEMPT tier=thorough unwind=40 mem=12 cap=1800
+/// (ATTEMPT: not decided within 40 min / 9 GB — symbolic bytes inside a path make every component boundary symbolic.)
 /// EVERY 9-byte file name over [a-z_.] below /w/t: indexed iff it is test_*.py or *_test.py (conftest.py has 11 bytes).
 #[cfg_attr(kani, kani::proof)]
 #[cfg_attr(kani, kani::stub(core::slice::memchr::memchr, stubs::memchr_bytewise))]
